@@ -71,6 +71,24 @@ def native_clause_failures(seed):
         rows["routes_agree"] = (np.allclose(uc2.lengths, L, rtol=1e-9) and np.allclose(uc2.angles, A, atol=1e-8) and np.allclose(uc2.direct, D)
                                 and np.allclose(uc2.inverse, V, atol=1e-9) and np.isclose(uc2.volume(), uc.volume(), rtol=1e-9))
         rows["parameters"] = np.allclose(uc.parameters, list(L) + list(np.degrees(A)), rtol=1e-9)
+        # the same cell given by vectors in another orientation (rigid rotation Q, then an axis permutation of the Cartesian frame)
+        q = np.random.default_rng(int(abs(L[0]) * 1e6) % (2 ** 31)).normal(size=4)
+        q /= np.linalg.norm(q)
+        w_, x_, y_, z_ = q
+        Q = np.array([[1 - 2 * (y_ * y_ + z_ * z_), 2 * (x_ * y_ - z_ * w_), 2 * (x_ * z_ + y_ * w_)],
+                      [2 * (x_ * y_ + z_ * w_), 1 - 2 * (x_ * x_ + z_ * z_), 2 * (y_ * z_ - x_ * w_)],
+                      [2 * (x_ * z_ - y_ * w_), 2 * (y_ * z_ + x_ * w_), 1 - 2 * (x_ * x_ + y_ * y_)]])
+        for Qk in (Q, Q[:, [1, 2, 0]]):
+            uc3 = UnitCell(D @ Qk)
+            V3 = uc3.inverse
+            star3 = [np.linalg.norm(V3[:, i]) for i in range(3)]
+            ok3 = (np.allclose(uc3.lengths, L, rtol=1e-9) and np.allclose(uc3.angles, A, atol=1e-8) and np.isclose(uc3.volume(), uc.volume(), rtol=1e-9)
+                   and np.allclose(uc3.direct @ V3, np.eye(3), atol=1e-9)
+                   and np.allclose([uc3.a_star, uc3.b_star, uc3.c_star], star3, rtol=1e-9) and np.allclose(star3, star, rtol=1e-9)
+                   and np.allclose([uc3.alpha_star, uc3.beta_star, uc3.gamma_star], [cosang(V3[:, 1], V3[:, 2]), cosang(V3[:, 0], V3[:, 2]), cosang(V3[:, 0], V3[:, 1])], atol=1e-8)
+                   and np.allclose([np.linalg.norm(uc3.v_a_star), np.linalg.norm(uc3.v_b_star), np.linalg.norm(uc3.v_c_star)], star3, rtol=1e-9)
+                   and np.allclose(uc3.to_fractional(uc3.to_cartesian(x)), x, atol=1e-9) and np.allclose(uc3.parameters, list(L) + list(np.degrees(A)), rtol=1e-8))
+            rows["rotated_cell"] = rows.get("rotated_cell", True) and bool(ok3)
         n += 1
         for k, ok in rows.items():
             if not ok and k not in fails:
@@ -296,8 +314,20 @@ def build(ctx):
                detail=badp[:3], witness=badp[:2], fn=F("parameters"))
     constructors(ctx, I, UC)
     nfail = [{"input": w, "observed": f"clause '{k}' violated", "clause": k, "key": k} for k, w in fails_native.items()]
-    ctx.add_bounded("unit_cell.UnitCell/bounded/native_clauses", "seeded generic cells: lengths 1..100, angles 0.2..pi-0.2, radicand > 0.02; 10 clauses each",
-                    n_native * 10, n_native, nfail, rule="distinct random cells")
+    # F: the scalar reciprocal quantities are computed from orientation-free data (lengths, angles, volume): what is proved for the standard orientation
+    #     (route A) then holds for the same cell in any orientation (route B proves lengths and angles are those of the given vectors)
+    orient_free = {"a", "b", "c", "alpha", "beta", "gamma", "lengths", "angles", "volume", "a_star", "b_star", "c_star"}
+    for nm in ("a_star", "b_star", "c_star", "alpha_star", "beta_star", "gamma_star"):
+        reads = {n_.attr for n_ in ast.walk(F(nm).node) if isinstance(n_, ast.Attribute) and isinstance(n_.value, ast.Name) and n_.value.id == "self"}
+
+        def fb(nm=nm):
+            w = fails_native.get("rotated_cell")
+            return None if w is None else {"input": dict(w, orientation="rigidly rotated lattice vectors"), "observed": "reciprocal geometry of the rotated cell differs from the cell's own inverse matrix"}
+        ctx.pattern(f"unit_cell.UnitCell.{nm}/reads/orientation_free", reads <= orient_free, fallback=fb, fn=F(nm), detail={"reads": sorted(reads)},
+                    clause=f"{nm} is computed from lengths, angles and volume only (no entry of a matrix that depends on the orientation of the lattice vectors)")
+    ctx.add_bounded("unit_cell.UnitCell/bounded/native_clauses", "seeded generic cells: lengths 1..100, angles 0.2..pi-0.2, radicand > 0.02; 10 clauses each + the same cell given by rigidly "
+                    "rotated / axis-permuted lattice vectors (lengths, angles, volume, inverse, reciprocal lengths and angles, parameters)",
+                    n_native * 11, n_native, nfail, rule="distinct random cells")
 
 
 def constructors(ctx, I, UC):
